@@ -161,6 +161,15 @@ def table_rules(facts, rep):
         o = outcome(p)
         res, n0 = decided(p, A_RES), decided(p, A_N)
         empty, match, ae2 = decided(p, A_EMPTY), decided(p, A_MATCH), decided(p, A_AE2)
+        # the same atoms under other spellings: `buf.len() == 0` for is_empty(), `computed != expected` for !check_matches()
+        if empty is None:
+            l_ = decided(p, r"^slice::len\(buf\)$|^len\(buf\)$")
+            if l_ is not None:
+                empty = 1 if l_ == 0 else 0
+        if match is None:
+            ne_ = decided(p, r"^Ne\(self\.\w+, Hasher::finalize\(|^Ne\(Hasher::finalize\(.*, self\.\w+\)$")
+            if ne_ is not None:
+                match = 0 if ne_ == 1 else 1
         inner = called(p, r"io::Read::read$")
         desc = "empty=%s match=%s ae2=%s inner=%s n==0:%s" % (empty, match, ae2, {0: "Ok", 1: "Err"}.get(res, res), n0 == 0)
         key = "row:" + re.sub(r"[^A-Za-z0-9=:,]", "", desc.replace(" ", ","))
@@ -201,7 +210,8 @@ def table_rules(facts, rep):
     extra_atoms = set()
     for p in ps:
         for a, v in p["decisions"]:
-            if not any(re.search(x, a) for x in (A_EMPTY, A_MATCH, A_AE2, A_RES, A_N)):
+            if not any(re.search(x, a) for x in (A_EMPTY, A_MATCH, A_AE2, A_RES, A_N, r"^slice::len\(buf\)$|^len\(buf\)$",
+                                                   r"^Ne\(self\.\w+, Hasher::finalize\(|^Ne\(Hasher::finalize\(.*, self\.\w+\)$")):
                 extra_atoms.add(a)
     ok &= rep.check(not extra_atoms, rule, "atoms", where(f, f.span), "decisions depend only on: buffer empty, checksum matches, AE-2, inner result",
                     "Crc32Reader::read additionally branches on %s -- a state under which the end-of-file check can be skipped" % sorted(extra_atoms))
@@ -219,11 +229,11 @@ def table_rules(facts, rep):
     else:
         exr = Ex(f)
         cands = [d_ for _, _, d_ in find_switch_on(f, lambda d: True)]
-        eqs = [x for b_, si_, s_ in f.stmts() if s_["k"] == "assign" and s_["rv"]["k"] == "binop" and s_["rv"]["op"] == "Eq"
+        eqs = [x for b_, si_, s_ in f.stmts() if s_["k"] == "assign" and s_["rv"]["k"] == "binop" and s_["rv"]["op"] in ("Eq", "Ne")
                for x in [norm(exr.rvalue(s_["rv"], (b_, si_)))] if any(y[0] == "call" and y[1].endswith("Hasher::finalize") for y in walk(x))]
         cmp_ = eqs[0] if len(eqs) == 1 else None
         site = f
-    good = cmp_ is not None and cmp_[0] == "bin" and cmp_[1] == "Eq" and len(stored) == 1 and ("." + stored[0]) in tokens(cmp_) and "finalize()" in tokens(cmp_) and ".hasher" in tokens(cmp_)
+    good = cmp_ is not None and cmp_[0] == "bin" and cmp_[1] in ("Eq", "Ne") and len(stored) == 1 and ("." + stored[0]) in tokens(cmp_) and "finalize()" in tokens(cmp_) and ".hasher" in tokens(cmp_)
     ok &= rep.check(good, rule, "check_matches", where(site, site.span), "expected checksum == hasher.clone().finalize()", "the checksum comparison is %s" % (show(cmp_) if cmp_ else "missing or ambiguous"))
     rep.floor(rule, 8)
     return ok
